@@ -301,10 +301,12 @@ fn ref_case(ctx: &mut Ctx, idx: u64) {
                 for t in probes {
                     let exp = want.contains(&t);
                     let val = m.deep_clone().validate_tokens(&[t]).map(|k| k == 1).unwrap_or(false);
-                    let com = m.deep_clone().consume_token(t).is_ok();
+                    let com_r = m.deep_clone().consume_token(t);
+                    let com = com_r.is_ok();
                     ctx.rep.inc("probe_checks");
                     if val != exp || com != exp {
-                        viol!("token_reference_validate_or_commit_differs", json!({"pos": pos, "token": t, "denoted": exp, "validate": val, "commit": com}));
+                        viol!("token_reference_validate_or_commit_differs", json!({"pos": pos, "token": t, "token_bytes": crate::report::bytes_dbg(&v.words[t as usize]), "denoted": exp, "validate": val, "commit": com, "trie_id_of_these_bytes": v.trie().token_id(&v.words[t as usize]), "canonical": v.canonical,
+                            "diagnostic": com_r.err().map(|e| e.to_string().lines().next().unwrap_or("").to_string())}));
                     }
                 }
                 let choices: Vec<u32> = want.iter().copied().collect();
